@@ -30,7 +30,8 @@ Definition deser_body (f : nat) (tr : bytes) (t len : N) (st : de_st) : outcome 
                  | Some (so, st1) =>
                    match take_val st1 with
                    | Some (sl, st2) =>
-                     deser_loop f tr (set_tape_off st2 (tape_set (tape_set (d_tape st2) off (N.lor tagDst so)) (off + 1) sl) (off + 2))
+                     if JSONVALUEMASK <? so then Err
+                     else deser_loop f tr (set_tape_off st2 (tape_set (tape_set (d_tape st2) off (N.lor tagDst so)) (off + 1) sl) (off + 2))
                    | None => Err
                    end
                  | None => Err
@@ -153,17 +154,18 @@ Proof.
   reflexivity.
 Qed.
 
-Lemma step_string f tr D off so sl vs : off + 2 <= N.of_nat (length D) ->
+Lemma step_string f tr D off so sl vs : off + 2 <= N.of_nat (length D) -> so <= JSONVALUEMASK ->
   deser_loop (S f) (n2b TagString :: tr) (mkst D off (so :: sl :: vs) 0) =
   deser_loop f tr (mkst (tape_set (tape_set D off (N.lor (mk_word TagString 0) so)) (off + 1) sl) (off + 2) vs 0).
 Proof.
-  intros Hb. rewrite deser_loop_step0 by (unfold TagString; lia).
+  intros Hb Hso. rewrite deser_loop_step0 by (unfold TagString; lia).
   unfold deser_body. cbv zeta.
   change (TagString =? TagNop) with false. change (TagString =? TagString) with true. cbv iota.
   cbn [mkst d_vrem d_off].
   replace (8 * N.of_nat (length (so :: sl :: vs)) <? 16) with false by (cbn [length]; lia).
   replace (N.of_nat (length D) <=? off + 1) with false by lia.
-  fold (mkst D off (so :: sl :: vs) 0). rewrite !take_val_mkst. reflexivity.
+  fold (mkst D off (so :: sl :: vs) 0). rewrite !take_val_mkst.
+  replace (JSONVALUEMASK <? so) with false by lia. reflexivity.
 Qed.
 
 Lemma step_num f tr t D off v vs : t = TagFloat \/ t = TagInteger \/ t = TagUint ->
